@@ -98,6 +98,11 @@ def readerSession (f : List String) : IO String := do
         let (r', sink, n, e) := FrameR.writeTo r { failAt := optNat fa }
         let all := sink.bytes
         r := r'; res := res.push s!"{n}/{fnv all all.size}/{errName e}"
+      | ["wd"] =>
+        -- WriteTo into a sink that keeps nothing (the harness measures the live heap): same call, same answer
+        let (r', sink, n, e) := FrameR.writeTo r { failAt := none }
+        let all := sink.bytes
+        r := r'; res := res.push s!"{n}/{fnv all all.size}/{errName e}"
       | ["s"] => res := res.push s!"{FrameR.size r}"
       | ["R", b] =>
         let d ← loadBlob b
